@@ -621,7 +621,10 @@ def f():
 _t(
     "T10",
     [PKG, ("tq.m2", {"a": HEAD + _T10_M2, "b": HEAD + _T10_M2.replace('("sc", v, R)', '("sc2", v, R)')}),
-     ("tq.m1", {"a": HEAD + _T10, "b": HEAD + _T10.replace('("lam", v, L)', '("lam2", v, L)'), "c": HEAD + _T10.replace('("in", v, L)', '("in2", v, L)'), "d": HEAD + _T10.replace("y=6)", "y=7)")})],
+     ("tq.m1", {"a": HEAD + _T10, "b": HEAD + _T10.replace('("lam", v, L)', '("lam2", v, L)'), "c": HEAD + _T10.replace('("in", v, L)', '("in2", v, L)'), "d": HEAD + _T10.replace("y=6)", "y=7)"),
+                 # e -> f: an edit that changes nothing but the indentation of one line (a statement leaves the loop)
+                 "e": HEAD + _T10.replace("    return fn(v)\n", "    r = fn(v)\n    for _i in range(2):\n        r = (\"w\", r)\n        r = (\"x\", r)\n    return r\n"),
+                 "f": HEAD + _T10.replace("    return fn(v)\n", "    r = fn(v)\n    for _i in range(2):\n        r = (\"w\", r)\n    r = (\"x\", r)\n    return r\n")})],
     leaves=[("tq.m1", "L", "int", True), ("tq.m2", "Q", "int", True), ("tq.m2", "R", "int", True)],
     entry=("tq.m1", "f"),
     kept=["/t10/old", "/t10/c", "/t10/f"],
